@@ -3563,6 +3563,54 @@ KERNELS += [
          theorem="WW.KernelsRamp.gen_trio_ramp_validation_eq_model", module="WW.Props.Kernels.Ramp"),
 ]
 
+# ---- the fee collector's take rate (C10): inline in `contract::reply` -------------------------------------------------
+SEM += [
+    R("m", "checked_mul_floor", ("Uint128", "Decimal"), ("res", "Uint128"), "mulRatioC U128MAX {0} {1} E18", "pure",
+      "cosmwasm-std 1.5.4 src/math/fraction.rs impl_mul_fraction!: `self.full_mul(rhs.numerator()).checked_div(rhs.denominator())?` then `try_into()?`; decimal.rs Fraction for Decimal: numerator = atomics, denominator = 10^18: Err when the floored quotient leaves 128 bits, never a panic"),
+    R("bin", "!=", ("Decimal", "Decimal"), "bool", "decide ({0} ≠ {1})", "pure", "decimal.rs #[derive(PartialEq, Eq)] on `Decimal(Uint128)`: inequality of the atomics"),
+]
+STRUCTURAL += [
+    ("r.unwrap_or(d) on the Result of a primitive checked_* operation", "`resUnwrapOr r d`: Err -> d (evaluated first-come, no effects allowed in d), a panic stays a panic"),
+]
+_tr_mcall_before_unwrap_or = Tr.tr_mcall
+
+
+def _tr_mcall_unwrap_or_on_checked(self, e, env, expected, hint):
+    if e["name"] == "unwrap_or" and len(e["args"]) == 1 and e["turbofish"] is None:
+        r0 = e["recv"]
+        while r0["k"] == "paren":
+            r0 = r0["e"]
+        if r0["k"] == "mcall" and r0["name"].startswith("checked_"):
+            a, t = self.tr(r0, env, ("res", expected) if isinstance(expected, str) else None)
+            if isinstance(t, tuple) and t[0] == "res" and isinstance(t[1], str):
+                saved, self.out = self.out, []
+                try:
+                    d, dt = self.tr(e["args"][0], env, t[1])
+                    eff = self.out
+                finally:
+                    self.out = saved
+                if eff:
+                    raise U(e["line"], "unwrap_or default has effects")
+                if dt != t[1]:
+                    raise U(e["line"], "unwrap_or default has another type")
+                v = hint if hint else self.fresh()
+                self.emit(f"let {v} ← resUnwrapOr ({a}) {atom(d)}")
+                return v, t[1]
+    return _tr_mcall_before_unwrap_or(self, e, env, expected, hint)
+
+
+Tr.tr_mcall = _tr_mcall_unwrap_or_on_checked
+COLLECTOR_CONTRACT = LH + "fee_collector/src/contract.rs"
+KERNELS += [
+    dict(lean="collector_take_rate_split", file=COLLECTOR_CONTRACT, fn="reply",
+         fragment=dict(start=r"^\s*let take_rate_fee = token_balance\s*$", end=r"^\s*token_balance = token_balance\.saturating_sub\(take_rate_fee\);",
+                       params=[("token_balance", "Uint128"), ("take_rate", "Decimal")],
+                       subst=[("config.take_rate", "take_rate")], mut_params=["token_balance"],
+                       result=["take_rate_fee", "token_balance"]),
+         props=["C10"], model="WW.Collector.takeOf",
+         theorem="WW.KernelsTakeRate.gen_collector_take_rate_split_eq_model", module="WW.Props.Kernels.TakeRate"),
+]
+
 # the generated file imports the map primitives next to the number primitives
 GEN_IMPORTS = ["import WW.Cw.Arith", "import WW.Cw.BTree"]
 
